@@ -472,6 +472,28 @@ func (t tag) referencedTags() []string {
 	return slices.AppendSeq(make([]string, 0, len(m)), maps.Keys(m))
 }
 
+// tagReferencesTransitively reports whether the tag named name can be reached
+// from t by following tag references.
+func (mgr *Manager) tagReferencesTransitively(t *tag, name string) bool {
+	visited := map[string]struct{}{}
+	queue := t.referencedTags()
+	for len(queue) != 0 {
+		tn := queue[0]
+		queue = queue[1:]
+		if tn == name {
+			return true
+		}
+		if _, ok := visited[tn]; ok {
+			continue
+		}
+		visited[tn] = struct{}{}
+		if rt, ok := mgr.tags[tn]; ok {
+			queue = append(queue, rt.referencedTags()...)
+		}
+	}
+	return false
+}
+
 func (t tag) converterNames() []string {
 	converterNames := make([]string, len(t.converters))
 	for i, converter := range t.converters {
@@ -1193,6 +1215,17 @@ func (mgr *Manager) UpdateTag(name string, operation UpdateTagOperation) error {
 			tag, ok := mgr.tags[name]
 			if !ok {
 				return fmt.Errorf("unknown tag %q", name)
+			}
+			if newTag != nil {
+				// check if all referenced tags exist and that none of them leads back to this tag
+				for _, rtn := range newTag.referencedTags() {
+					if _, ok := mgr.tags[rtn]; !ok {
+						return fmt.Errorf("unknown referenced tag %q", rtn)
+					}
+				}
+				if mgr.tagReferencesTransitively(newTag, name) {
+					return errors.New("reference cycle not allowed in tags")
+				}
 			}
 			if info.color != "" {
 				tag.color = info.color
